@@ -841,8 +841,6 @@ def run_solver(case, ctx):
 
     def final_class(comp, rel, x):
         """the reported solution is a point that was evaluated before the collapse it violates"""
-        if isinstance(target, list) and any(i in rel['fixed'] and x[i] != rel['fixed'][i] and x[i] in target for i in comp):
-            return 'list-target-misaligned'           # x[i] sits at another entry of the target list
         c = order_class(comp, rel)
         if c or where_final[0] is None:
             return c
@@ -909,6 +907,9 @@ def run_solver(case, ctx):
             if applied[k]:
                 ctx.label('applied:' + k)
 
+
+# libFuzzer executions per shard and @given test of the coverage-guided extra of the thorough tier (vp/fuzz.py)
+FUZZ = 2000
 
 TESTS = [
     Test('at', run_at, strategy=lambda tier: at_cases(tier), examples={'quick': 8000, 'thorough': 300000}),
